@@ -18,9 +18,13 @@ import (
 // sync-answer attacks: name -> fields
 var hdrFields = []string{"parent", "nonce", "timestamp", "commitment"}
 var hdrShapes = []string{"drop", "swap", "dup", "extra"}
-var blkFields = []string{"parent", "nonce", "timestamp", "commitment", "payout-value", "payout-addr", "extra-payout", "txn-tamper", "v2-height", "drop-v2"}
+var blkFields = []string{"parent", "nonce", "timestamp", "commitment", "payout-value", "payout-addr", "extra-payout", "no-payouts", "txn-tamper", "v2txn-drop", "v2-height", "drop-v2"}
 var blkShapes = []string{"drop-last", "truncate", "extend", "extend-dup", "drop", "swap", "sibling", "error"}
-var cpFields = []string{"no-v2", "sibling", "txn-tamper", "payout-value", "v2-height", "state-other", "state-tamper", "missing"}
+
+// checkpoint answers. The id of a v2 block covers parent id, nonce, timestamp and the commitment field only; the
+// id-preserving family alters what it does not cover: the miner payouts (none, two, value, address), the v1 and v2
+// transactions (commitment field kept) and the v2 height.
+var cpFields = []string{"no-v2", "sibling", "no-payouts", "extra-payout", "payout-value", "payout-addr", "txn-tamper", "v2txn-drop", "v2-height", "state-other", "state-tamper", "missing"}
 var relayHeaderKinds = []string{"unknown-parent", "low-work", "side", "attach"}
 var relayOutlineKinds = []string{"unknown-parent", "low-work", "side", "side-known", "attach-valid", "attach-bad-height", "attach-bad-time", "missing-right", "missing-wrong", "missing-fail"}
 var relayTxnKinds = []string{"unknown-basis", "empty", "invalid"}
@@ -83,6 +87,19 @@ func corruptBlock(t *chaingen.Tree, b *types.Block, parentState consensus.State,
 		b.MinerPayouts[0].Address[2] ^= 0x08
 	case "extra-payout":
 		b.MinerPayouts = append(append([]types.SiacoinOutput(nil), b.MinerPayouts...), types.SiacoinOutput{Address: t.Env.Addr, Value: types.Siacoins(1)})
+	case "no-payouts":
+		b.MinerPayouts = nil
+	case "v2txn-drop":
+		if b.V2 == nil {
+			return false
+		}
+		v := *b.V2
+		if len(v.Transactions) > 0 {
+			v.Transactions = append([]types.V2Transaction(nil), v.Transactions[1:]...)
+		} else {
+			v.Transactions = []types.V2Transaction{{ArbitraryData: []byte("added")}}
+		}
+		b.V2 = &v
 	case "txn-tamper":
 		b.Transactions = append(append([]types.Transaction(nil), b.Transactions...), types.Transaction{ArbitraryData: [][]byte{[]byte("oops")}})
 	case "v2-height":
@@ -277,7 +294,7 @@ func buildAttack(s Scen, t *chaingen.Tree, ts *terms, v0, h *chaingen.Node) *att
 		a.mustBan = true // if the victim tries it (it does whenever the branch looks sufficiently heavier)
 	case "cp-field":
 		switch s.Field {
-		case "no-v2", "txn-tamper", "payout-value", "v2-height":
+		case "no-v2", "txn-tamper", "payout-value", "v2-height", "no-payouts", "extra-payout", "payout-addr", "v2txn-drop":
 			l.mutBlock = func(id types.BlockID, b types.Block, ok bool) (types.Block, bool) {
 				if !ok {
 					return b, ok
